@@ -20,6 +20,7 @@ type (
 		l        lane.Lane
 		dss      *dataStoreSet
 		server   net.Listener
+		disp     *cmdDispatcher
 		cancelFn context.CancelFunc
 		wg       sync.WaitGroup
 		hook     DispatchHook
@@ -95,6 +96,19 @@ func (eng *RedisEmu) RequestTermination() {
 	if eng.cancelFn != nil {
 		eng.cancelFn()
 		eng.cancelFn = nil
+	}
+
+	if eng.disp != nil {
+		// existing connections of this emulator end too: a blocked command is released, the
+		// socket is closed, and nothing more is served from the terminated instance
+		disp := eng.disp
+		eng.disp = nil
+		processAllClients(func(id int64, cs *clientState) {
+			if cs.disp == disp {
+				cs.unblock("ERR server closed the connection", true)
+				cs.client.RequestClose()
+			}
+		})
 	}
 }
 
@@ -212,6 +226,9 @@ func (eng *RedisEmu) startServer() {
 	if eng.disableClientSetInfo {
 		dispatcher.disableCmd("client|setinfo")
 	}
+	eng.mu.Lock()
+	eng.disp = dispatcher
+	eng.mu.Unlock()
 
 	eng.wg.Add(1)
 	go func() {
